@@ -72,12 +72,19 @@ Progs2 == UNION {{ab \o <<it, ro>>: it \in Plain(ab), ro \in RepOnlys(ab)}: ab \
 Progs3 == IF Size >= 2
           THEN UNION {{<<ro, it>> \o ab: it \in Plain(ab), ro \in {x \in RepOnlys(ab): x.key = "A" /\ x.rep = Disabled}}: ab \in AliasBlocks}
           ELSE {}
-Progs == SetToSeq(Progs1 \cup Progs2 \cup Progs3 \cup CharProgs)
+\* two mappings with the SAME trigger set (a row mapping and a single mapping overriding one of its keys, in either
+\* order) and a repeat-only entry for that trigger: the repeat mode must reach every mapping of the trigger set
+RowAS(ml) == [ty |-> "row", mods |-> ml, row |-> "A", tomods |-> <<>>, letters |-> <<"a", "o">>, rep |-> Normal, abs |-> <<>>]
+SingleS(ml) == [ty |-> "single", mods |-> ml, key |-> "S", tomods |-> <<>>, toterm |-> <<"F13">>, rep |-> Normal, abs |-> <<>>]
+RepS(ml, r) == [ty |-> "reponly", mods |-> ml, key |-> "S", rep |-> r]
+Progs4 == UNION {UNION {{ab \o <<RowAS(ml), SingleS(ml), RepS(ml, r)>>, ab \o <<SingleS(ml), RowAS(ml), RepS(ml, r)>>, ab \o <<RepS(ml, r), RowAS(ml), SingleS(ml)>>}:
+                         ml \in ModLists(ab), r \in {Disabled, [kind |-> "Special", tomods |-> <<>>, toterm |-> <<"F24">>, delay |-> 180, interval |-> 30]}}: ab \in AliasBlocks}
+Progs == SetToSeq(Progs1 \cup Progs2 \cup Progs3 \cup Progs4 \cup CharProgs)
 
 Sp0 == [bare |-> TRUE, lower |-> FALSE, explicit |-> FALSE]
 Sp1 == [bare |-> FALSE, lower |-> TRUE, explicit |-> TRUE]
 
-ASSUME PrintT(<<"GENERATED", Len(Progs), Cardinality(Progs1), Cardinality(Progs2), Cardinality(Progs3), Cardinality(CharProgs)>>)
+ASSUME PrintT(<<"GENERATED", Len(Progs), Cardinality(Progs1), Cardinality(Progs2), Cardinality(Progs3), Cardinality(Progs4), Cardinality(CharProgs)>>)
 ASSUME LET ps == Progs IN
        ndJsonSerialize(IOEnv.OUT, [i \in 1..Len(ps) |-> [id |-> i, json |-> Render(ps[i], Sp0), json2 |-> Render(ps[i], Sp1), expect |-> Expand(ps[i])]])
 VARIABLE x
